@@ -622,6 +622,36 @@ func propC09(r *Run, w *World) {
 				}
 			}
 		}
+		if !okMode {
+			// the same text without fmt: strconv.FormatUint(masked, 8) left-padded with "0" to four digits
+			for _, c := range callsNamedIn(fn, "strconv.FormatUint") {
+				a := c.Common().Args
+				if len(a) != 2 || !isConstInt(a[1], 8) {
+					continue
+				}
+				t := Term(a[0])
+				t = strings.ReplaceAll(t, "io/fs.FileMode", "os.FileMode")
+				masked := t == "uint64((4095 & os.FileMode(ParseUint#1#0)))" || t == "uint64((os.FileMode(ParseUint#1#0) & 4095))" || t == "(ParseUint#1#0 & 4095)" || t == "(4095 & ParseUint#1#0)"
+				if !masked {
+					continue
+				}
+				digits := Term(c.Value())
+				padded := false
+				for _, rp := range callsNamedIn(fn, "strings.Repeat") {
+					ra := rp.Common().Args
+					if z, isZ := constString(ra[0]); isZ && z == "0" && Term(ra[1]) == "(4 - len("+digits+"))" {
+						padded = true
+					}
+				}
+				stored := false
+				for _, st := range storesOf(fn) {
+					if strings.HasSuffix(AddrTerm(st.Addr), "File.Mode") {
+						stored = allPhiLeaves(st.Val, func(l ssa.Value) bool { return strings.Contains(Term(l), digits) })
+					}
+				}
+				okMode = padded && stored
+			}
+		}
 		for _, c := range callsNamedIn(fn, "strconv.ParseUint") {
 			okMode = okMode && isConstInt(c.Common().Args[1], 8)
 		}
